@@ -90,11 +90,11 @@ CHECKS.update({
    text="Design: PackAlgo = PackSpec and TraceAlgo = TraceSpec for all k <= N, N = 4, 8, 16 (thorough 2..32). Binding: for BFV/BGV/CKKS at N = 4..16 (..32): extract+assemble of every index from both representations, "
         "field trace for every parameter, packing of every count 1..N on random small messages; decrypted polynomials must equal the specification (CKKS after rounding, deviation < 0.1).",
    ref="DESIGN.md 4/C19", note="Trusted: TLC, spec/Lwe.tla, the decrypt/decode projection of harness/src/c19.rs. N up to 32 only."),
- "C20": dict(cat="model_checking", tech="trace validation (impl->spec): results of the real matmul / conv2d helpers on enumerated small shapes checked by TLC against the functional specification spec/MatMul.tla; spec/Cheetah.tla and spec/Conv2d.tla (refinements: block search, tiles, index maps, block-wise negacyclic products) model-checked and bound to the helpers' block choice, encoded polynomials and term lists",
+ "C20": dict(cat="model_checking", tech="trace validation (impl->spec): results of the real matmul / conv2d helpers on enumerated small shapes checked by TLC against the functional specification spec/MatMul.tla; spec/Cheetah.tla, spec/Conv2d.tla and spec/Bolt.tla (refinements: block search, tiles, index maps, block-wise negacyclic products; slot layouts, rotation / mask / rotate-and-sum programs, read-out, blocking) model-checked on all pairs of unit operands and bound to the helpers' block choice, encoded polynomials / slot vectors, term lists and output positions",
    text="Cheetah coefficient-packing matmul on every shape (m,r,n) in 1..4 (1..6) x three objectives x cipher*plain / plain*cipher x packing on/off with selected-terms transport, bias and encode/decrypt round trip, plus multi-ciphertext / partial-block shapes; "
-        "the three BOLT slot-packing variants; conv2d over image 2..7 (2..9) x kernel up to 2x3 x channel/batch combinations incl. height and width tiling, sparse (all-zero) layers; every result must equal Y = XW + B mod t resp. the valid cross-correlation. "
+        "the three BOLT slot-packing variants (results at N = 8, 16, 32; layouts of every shape up to 5x5x5 (7x7x7) and of shapes beyond N/2 and N against spec/Bolt.tla); conv2d over image 2..7 (2..9) x kernel up to 2x3 x channel/batch combinations incl. height and width tiling, sparse (all-zero) layers; every result must equal Y = XW + B mod t resp. the valid cross-correlation. "
         "The RNS-plaintext wrapper (2-3 plain moduli) must compute modulo the product of its moduli; the CKKS variants of cheetah matmul and conv2d must be within 2^-5 of the integer result.",
-   ref="DESIGN.md 4/C20", note="Trusted: TLC, spec/MatMul.tla. CKKS variants only for cheetah matmul and conv2d (cipher*plain); the Cheetah and conv2d packings have refinement models, BOLT is covered functionally only."),
+   ref="DESIGN.md 4/C20", note="Trusted: TLC, spec/MatMul.tla. CKKS variants only for cheetah matmul and conv2d (cipher*plain); the Cheetah, conv2d and BOLT packings have refinement models (BOLT rotation programs model-checked at N = 8, 16, thorough also 32)."),
 })
 CHECKS.update({
  "C10": dict(cat="model_checking", tech="trace validation (impl->spec): per-coefficient results of the real RNS routines, on inputs built from known integers, checked by TLC against the integer post-conditions of spec/Rns.tla over BigNat",
